@@ -312,8 +312,8 @@ pub fn gen_int_in(t: &mut Tape, lo: i128, hi: i128) -> i128 {
         }
         _ => {
             let r = t.u128();
-            let span = (hi - lo) as u128;
-            if span == u128::MAX { r as i128 } else { lo + (r % (span + 1)) as i128 }
+            let span = hi.wrapping_sub(lo) as u128;
+            if span == u128::MAX { r as i128 } else { lo.wrapping_add((r % (span + 1)) as i128) }
         }
     };
     v.clamp(lo, hi)
